@@ -129,6 +129,15 @@ pub fn tuple_case(ctx: &mut Ctx, code: u16, idx: u64) {
                 } else {
                     ctx.count("compressed_writer_fields_equal");
                 }
+                // layout: the types whose RFCs (and RFC 3597 §4) forbid compression of the names inside their RDATA carry them in full
+                if let Ok(t) = decode_typed(&out) {
+                    let forbidden = (0..3).flat_map(|sec| t.rd_names[sec].iter().flatten()).filter(|np| np.comp == Comp::Never && !np.name.ptrs.is_empty()).count();
+                    if forbidden > 0 {
+                        ctx.violation("write-rfc-encoding", &format!("compressed-writer-compresses-forbidden-name:{}", tname),
+                            format!("build_bytes_vec_compressed wrote {} name(s) inside {} RDATA with a compression pointer; this type's layout carries its names in full", forbidden, tname),
+                            gen_case("tuple", idx, &p, json!({"reference_encoding": hex(&reference), "library_encoding": hex(&out)})));
+                    }
+                }
             }
             Ok(Err(e)) => ctx.violation("write-rfc-encoding", &format!("compressed-writer-output-rejected:{}", tname), e, case()),
             Err(pn) => ctx.panic_violation("Packet::parse (compressed output)", &pn, case()),
